@@ -269,10 +269,31 @@ func (v *Vue) RenderFragment(w io.Writer, filename string, data any) error {
 	return v.renderNodesWithContext(vueCtx, w, dom)
 }
 
+// errWriter remembers the first write error so the serialiser can report it.
+type errWriter struct {
+	w   io.Writer
+	err error
+}
+
+func (e *errWriter) Write(p []byte) (int, error) {
+	if e.err != nil {
+		return 0, e.err
+	}
+	n, err := e.w.Write(p)
+	if err != nil {
+		e.err = err
+	}
+	return n, err
+}
+
 func (v *Vue) render(w io.Writer, nodes []*html.Node) error {
+	ew := &errWriter{w: w}
 	for _, node := range nodes {
-		if err := renderNode(w, node, 0); err != nil {
+		if err := renderNode(ew, node, 0); err != nil {
 			return err
+		}
+		if ew.err != nil {
+			return ew.err
 		}
 	}
 	return nil
